@@ -66,5 +66,7 @@ func main() {
 	}
 	genConsts(pkg)
 	genSelects(pkg)
+	genTransitions(pkg)
+	genDecisions(pkg)
 	genAccess(pkgs)
 }
